@@ -61,6 +61,10 @@ def install_sqlite(clock=None):
     C.stub(SQ, "sqlite3", sqlstub)
     C.stub(SQ, "json", JSON)
     C.stub(SQ, "int", S.sym_int)
+    C.stub(SQ, "timedelta", S.sym_timedelta)
+    if "EPOCH" in SQ.__dict__:
+        # a shadow epoch, so that EPOCH + <symbolic timedelta> and <symbolic datetime> - EPOCH stay symbolic
+        C.stub(SQ, "EPOCH", S.SDatetime(0, 0, True))
     C.stub(SQ, "datetime", S.SymDatetimeClass(clock))
 
 
